@@ -101,6 +101,8 @@ pub struct Ctx {
     pub ta: ResourceCert,
     pub now: Time,
     pub items: Vec<Item>,
+    /// valid objects the library's own builders could not produce (they panicked)
+    pub build_failures: Vec<(String, String)>,
 }
 
 fn sob(serial: u64) -> SignedObjectBuilder {
@@ -112,7 +114,8 @@ fn mk_cert(pki: &Pki, kind: &str, shape: usize) -> Cert {
     let v = Validity::new(Time::utc(2024, 1, 1, 0, 0, 0), Time::utc(2034, 1, 1, 0, 0, 0));
     let (key, ku) = match kind { "ta" => ("k0", KeyUsage::Ca), "ca" => ("k1", KeyUsage::Ca), _ => ("e0", KeyUsage::Ee) };
     let pk = pki.pubkey(key);
-    let mut tbs = TbsCert::new(Serial::from(100 + shape as u64), pki.pubkey("k0").to_subject_name(), v, None, pk, ku,
+    // shape 4: the serial number 0
+    let mut tbs = TbsCert::new(Serial::from(if shape == 4 { 0 } else { 100 + shape as u64 }), pki.pubkey("k0").to_subject_name(), v, None, pk, ku,
                                if shape % 2 == 1 { Overclaim::Trim } else { Overclaim::Refuse });
     if kind != "ee" {
         tbs.set_basic_ca(Some(true));
@@ -163,20 +166,36 @@ impl Ctx {
         let k0 = pki.key("k0");
         let v = Validity::new(Time::utc(2024, 1, 1, 0, 0, 0), Time::utc(2034, 1, 1, 0, 0, 0));
         let mut items: Vec<Item> = vec![];
+        let mut build_failures: Vec<(String, String)> = vec![];
         let mut add = |entry: &'static str, name: &str, bytes: Vec<u8>| items.push(Item { entry, name: name.to_string(), bytes });
         add("cert", "built-ta", ta_cert.to_captured().into_bytes().to_vec());
-        for (k, s) in [("ca", 0), ("ca", 1), ("ee", 2), ("ee", 0)] {
-            add("cert", &format!("built-{k}-{s}"), mk_cert(&pki, k, s).to_captured().into_bytes().to_vec());
+        for (k, s) in [("ca", 0), ("ca", 1), ("ee", 2), ("ee", 0), ("ee", 4)] {
+            match guarded(|| mk_cert(&pki, k, s).to_captured().into_bytes().to_vec()) {
+                Ok(b) => add("cert", &format!("built-{k}-{s}"), b),
+                Err(m) => build_failures.push((format!("cert built-{k}-{s}"), m)),
+            }
         }
         let entries: Vec<CrlEntry> = [3u64, 0x80, 0x7fff_ffff_ffff].iter().map(|s| CrlEntry::new(Serial::from(*s), v.not_before())).collect();
         let crl = TbsCertList::new(RpkiSignatureAlgorithm::default(), pki.pubkey("k0").to_subject_name(), v.not_before(), v.not_after(), entries,
                                    pki.pubkey("k0").key_identifier(), Serial::from(9u64)).into_crl(&pki.signer, &k0).unwrap();
         add("crl", "built", crl.to_captured().into_bytes().to_vec());
+        // CRL number 0, a revoked serial number 0
+        match guarded(|| TbsCertList::new(RpkiSignatureAlgorithm::default(), pki.pubkey("k0").to_subject_name(), v.not_before(), v.not_after(),
+                                    vec![CrlEntry::new(Serial::from(0u64), v.not_before())], pki.pubkey("k0").key_identifier(), Serial::from(0u64)).into_crl(&pki.signer, &k0).unwrap().to_captured().into_bytes().to_vec()) {
+            Ok(b) => add("crl", "built-zero", b),
+            Err(m) => build_failures.push(("crl built-zero".to_string(), m)),
+        }
         let files: Vec<FileAndHash<Bytes, Bytes>> = ["a.cer", "B-2_x.roa", "zz9.crl"].iter()
             .map(|n| FileAndHash::new(Bytes::from_static(n.as_bytes()), Bytes::from(crate::cms::sha256(n.as_bytes())))).collect();
         let mft = ManifestContent::new(Serial::from(5u64), v.not_before(), v.not_after(), DigestAlgorithm::default(), files.iter())
             .into_manifest(sob(21), &pki.signer, &k0).unwrap();
         add("manifest", "built", mft.to_captured().into_bytes().to_vec());
+        // manifest number 0
+        match guarded(|| ManifestContent::new(Serial::from(0u64), v.not_before(), v.not_after(), DigestAlgorithm::default(), files.iter().take(1))
+            .into_manifest(sob(24), &pki.signer, &k0).unwrap().to_captured().into_bytes().to_vec()) {
+            Ok(b) => add("manifest", "built-zero", b),
+            Err(m) => build_failures.push(("manifest built-zero".to_string(), m)),
+        }
         let mut rb = RoaBuilder::new(Asn::from_u32(64496));
         rb.push_addr(IpAddr::V4(Ipv4Addr::new(10, 0, 0, 0)), 8, None);
         rb.push_addr(IpAddr::V4(Ipv4Addr::new(192, 0, 2, 0)), 24, Some(32));
@@ -244,7 +263,7 @@ impl Ctx {
                 add(e, f, b);
             }
         }
-        Ctx { pki, ta, now, items }
+        Ctx { pki, ta, now, items, build_failures }
     }
 }
 
@@ -299,6 +318,8 @@ fn sweep_cert(c: &Cert, ctx: &Ctx) -> usize {
     let mut n = 30 + sweep_ipres(c.v4_resources(), false) + sweep_ipres(c.v6_resources(), true) + sweep_asres(c.as_resources());
     reenc("Cert::to_captured", || c.to_captured());
     reenc("Cert::encode_ref", || c.encode_ref().to_captured(Mode::Der));
+    // the decoded payload encoded field by field (serial number, names, times, extensions), not from the captured bytes
+    reenc("TbsCert::encode_ref", || { let t: &rpki::repository::cert::TbsCert = c; t.encode_ref().to_captured(Mode::Der) });
     reenc("Cert::serialize", || serde_json::to_string(c).is_ok());
     // the validators are entry points for decoded values too
     let _ = c.inspect_ca(true).is_ok() | c.inspect_ca(false).is_ok() | c.inspect_ee(true).is_ok() | c.inspect_ee(false).is_ok()
@@ -333,6 +354,7 @@ fn sweep_crl(c: &Crl, ctx: &Ctx) -> usize {
     for s in &serials { let _ = c2.contains(*s); }
     let _ = c.verify_signature(&ctx.pki.pubkey("k0"));
     reenc("Crl::to_captured", || c.to_captured());
+    reenc("TbsCertList::encode_ref", || { use bcder::encode::Values; c.as_cert_list().encode_ref().to_captured(Mode::Der) });
     reenc("Crl::serialize", || serde_json::to_string(c).is_ok());
     n
 }
@@ -350,6 +372,7 @@ fn sweep_manifest(m: &Manifest, ctx: &Ctx) -> usize {
         for (u, h) in c.iter_uris(&rsync(base)) { let _ = (u.to_string(), h.as_slice().len(), h.verify(b"x").is_ok(), h.algorithm()); n += 1; }
     }
     reenc("Manifest::to_captured", || m.to_captured());
+    reenc("ManifestContent::encode_ref", || { use bcder::encode::Values; m.content().encode_ref().to_captured(Mode::Der) });
     reenc("Manifest::serialize", || serde_json::to_string(m).is_ok());
     let _ = m.clone().validate_at(&ctx.ta, true, ctx.now);
     let _ = m.clone().validate_at(&ctx.ta, false, ctx.now);
@@ -406,6 +429,7 @@ fn sweep_rta(r: &Rta, ctx: &Ctx) -> usize {
     let _ = (c.subject_keys().len(), c.digest_algorithm(), c.message_digest().as_ref().len());
     let n = 4 + sweep_blocks_as(c.as_resources()) + sweep_blocks_ip(c.v4_resources(), false) + sweep_blocks_ip(c.v6_resources(), true);
     reenc("Rta::to_captured", || r.to_captured());
+    reenc("ResourceTaggedAttestation::encode_ref", || { use bcder::encode::Values; r.content().encode_ref().to_captured(Mode::Der) });
     for strict in [true, false] {
         if let Ok(mut v) = rpki::repository::rta::Validation::new_at(r, strict, ctx.now) {
             let _ = v.supply_ca(&ctx.ta);
@@ -429,6 +453,7 @@ fn sweep_idcert(c: &IdCert, ctx: &Ctx) -> usize {
     let _ = (c.serial_number(), format!("{}", c.serial_number()), c.subject_key_identifier(), c.subject_key_id(), c.authority_key_id(), c.validity(), format!("{:?}", c.subject()));
     let n = 8 + sweep_key(c.public_key());
     reenc("IdCert::to_captured", || (c.to_captured(), c.to_bytes()));
+    reenc("TbsIdCert::encode_ref", || { use bcder::encode::Values; let t: &rpki::ca::idcert::TbsIdCert = c; t.encode_ref().to_captured(Mode::Der) });
     let _ = c.validate_ta_at(ctx.now);
     let _ = c.validate_ee_at(&ctx.pki.pubkey("k0"), ctx.now);
     let _ = c.verify_validity(ctx.now);
@@ -700,6 +725,9 @@ pub fn replay(args: &[String]) {
     let sites = arg_u64(args, "--sites", 12) as usize;
     let ctx = Ctx::new();
     let mut s = Summary::new();
+    for (name, m) in &ctx.build_failures {
+        s.violation(&format!("baseline:build:{name}"), format!("the library's builder panics on the valid object '{name}': {m}"), json!({"item": name}));
+    }
     // baseline: every corpus item must decode (strict or relaxed) with its own entry point, within budget
     for it in &ctx.items {
         let a = run_one(&ctx, it.entry, true, &it.bytes);
